@@ -37,6 +37,7 @@ LOOPS_SCHEMA
 //@   ensures forall k in dom(s.MAPS.parameters) :: (old(k in dom(s.MAPS.parameters)) && s.MAPS.parameters[k] == old(s.MAPS.parameters[k])) || (k == pkey(prefix, i) && NONEMPTY(param.FIELD) && s.MAPS.parameters[k] == param.FIELD)
 //@   ensures forall k string :: old(k in dom(s.MAPS.parameters)) ==> k in dom(s.MAPS.parameters)
 //@   ensures forall k string :: old(k in dom(s.MAPS.ALL)) ==> k in dom(s.MAPS.ALL)
+//@   ensures (forall k string :: old(k in dom(s.MAPS.items)) ==> k in dom(s.MAPS.items)) && (forall k string :: old(k in dom(s.MAPS.schemas)) ==> k in dom(s.MAPS.schemas))
 //@   ensures forall k string :: forall p VT :: itKIND(k, p, param.Items, path.Join(prefix, "parameters", strconv.Itoa(i)), "items") ==> k in dom(s.MAPS.items) && k in dom(s.MAPS.ALL)
 
 // a response (default or status code) registers the KINDs of its headers under <response pointer>/headers/<name>
@@ -50,6 +51,8 @@ LOOPS_SCHEMA
 //@   ensures forall k in dom(s.MAPS.headers) :: (old(k in dom(s.MAPS.headers)) && s.MAPS.headers[k] == old(s.MAPS.headers[k])) || hdrKIND(k, s.MAPS.headers[k], *res, path.Join(prefix, "responses", "default"))
 //@   ensures forall k string :: old(k in dom(s.MAPS.headers)) ==> k in dom(s.MAPS.headers)
 //@   ensures forall k string :: old(k in dom(s.MAPS.ALL)) ==> k in dom(s.MAPS.ALL)
+//@   ensures (forall k string :: old(k in dom(s.MAPS.items)) ==> k in dom(s.MAPS.items)) && (forall k string :: old(k in dom(s.MAPS.schemas)) ==> k in dom(s.MAPS.schemas))
+//@   loop 1: invariant (forall k string :: old(k in dom(s.MAPS.items)) ==> k in dom(s.MAPS.items)) && (forall k string :: old(k in dom(s.MAPS.schemas)) ==> k in dom(s.MAPS.schemas))
 //@   loop 1: invariant forall h in seen :: NONEMPTY(res.Headers[h].FIELD) ==> hkey(path.Join(prefix, "responses", "default"), h) in dom(s.MAPS.headers) && hkey(path.Join(prefix, "responses", "default"), h) in dom(s.MAPS.ALL)
 //@   loop 1: invariant forall k in dom(s.MAPS.headers) :: (old(k in dom(s.MAPS.headers)) && s.MAPS.headers[k] == old(s.MAPS.headers[k])) || hdrKIND(k, s.MAPS.headers[k], *res, path.Join(prefix, "responses", "default"))
 //@   loop 1: invariant forall k string :: old(k in dom(s.MAPS.headers)) ==> k in dom(s.MAPS.headers)
@@ -63,21 +66,14 @@ LOOPS_SCHEMA
 //@   ensures forall kk in dom(s.MAPS.headers) :: (old(kk in dom(s.MAPS.headers)) && s.MAPS.headers[kk] == old(s.MAPS.headers[kk])) || hdrKIND(kk, s.MAPS.headers[kk], res, path.Join(prefix, "responses", strconv.Itoa(k)))
 //@   ensures forall kk string :: old(kk in dom(s.MAPS.headers)) ==> kk in dom(s.MAPS.headers)
 //@   ensures forall kk string :: old(kk in dom(s.MAPS.ALL)) ==> kk in dom(s.MAPS.ALL)
+//@   ensures (forall kk string :: old(kk in dom(s.MAPS.items)) ==> kk in dom(s.MAPS.items)) && (forall kk string :: old(kk in dom(s.MAPS.schemas)) ==> kk in dom(s.MAPS.schemas))
+//@   loop 1: invariant (forall kk string :: old(kk in dom(s.MAPS.items)) ==> kk in dom(s.MAPS.items)) && (forall kk string :: old(kk in dom(s.MAPS.schemas)) ==> kk in dom(s.MAPS.schemas))
 //@   loop 1: invariant forall h in seen :: NONEMPTY(res.Headers[h].FIELD) ==> hkey(path.Join(prefix, "responses", strconv.Itoa(k)), h) in dom(s.MAPS.headers) && hkey(path.Join(prefix, "responses", strconv.Itoa(k)), h) in dom(s.MAPS.ALL)
 //@   loop 1: invariant forall kk in dom(s.MAPS.headers) :: (old(kk in dom(s.MAPS.headers)) && s.MAPS.headers[kk] == old(s.MAPS.headers[kk])) || hdrKIND(kk, s.MAPS.headers[kk], res, path.Join(prefix, "responses", strconv.Itoa(k)))
 //@   loop 1: invariant forall kk string :: old(kk in dom(s.MAPS.headers)) ==> kk in dom(s.MAPS.headers)
 //@   loop 1: invariant forall kk string :: old(kk in dom(s.MAPS.ALL)) ==> kk in dom(s.MAPS.ALL)
 '''
 EXTRA = r'''
-// path-level parameters (analyzeOperations) and shared parameters / shared response headers (initialize)
-//@ func (s *Spec) analyzeOperations(path, pi)
-//@   aspect ASPECT
-//@   requires s != nil && pi != nil && idxMaps(s) && (forall mth in dom(s.operations) :: s.operations[mth] != nil)
-//@   modifies heaps INDEX, heap spec.Parameter
-//@   ensures idxMaps(s) && s.spec == old(s.spec) && s.MAPS.parameters == old(s.MAPS.parameters) && s.MAPS.headers == old(s.MAPS.headers) && s.MAPS.schemas == old(s.MAPS.schemas) && s.MAPS.ALL == old(s.MAPS.ALL)
-//@   ensures forall i in 0..len(pi.Parameters) :: NONEMPTY(pi.Parameters[i].FIELD) ==> ("#" + slashpath.Join("/paths", jsonpointer.Escape(path), "parameters", strconv.Itoa(i))) in dom(s.MAPS.parameters) && ("#" + slashpath.Join("/paths", jsonpointer.Escape(path), "parameters", strconv.Itoa(i))) in dom(s.MAPS.ALL)
-//@   loop 1: invariant s != nil && idxMaps(s) && s.spec == old(s.spec) && s.MAPS.parameters == old(s.MAPS.parameters) && s.MAPS.headers == old(s.MAPS.headers) && s.MAPS.schemas == old(s.MAPS.schemas) && s.MAPS.ALL == old(s.MAPS.ALL)
-//@   loop 1: invariant forall j in 0..idx :: NONEMPTY(op.Parameters[j].FIELD) ==> ("#" + slashpath.Join("/paths", jsonpointer.Escape(path), "parameters", strconv.Itoa(j))) in dom(s.MAPS.parameters) && ("#" + slashpath.Join("/paths", jsonpointer.Escape(path), "parameters", strconv.Itoa(j))) in dom(s.MAPS.ALL)
 '''
 def gen(kind):
     t = PAT + EXTRA
